@@ -52,4 +52,22 @@ theorem glob_cache_size_validated :
     (globCacheSizeRejectedWhen = "cfg.GlobCacheSize <= 0" ∨ globCacheSizeRejectedWhen = "cfg.GlobCacheSize < 1")
     ∧ 0 < globCacheBuiltFromConfig := by decide
 
+/-- **Every integer-indexed expression of `config/load.go` and `config/flagset.go` keeps its guard**: the
+dominating length check of each index site, as extracted from the source.  `kvs[0]` (the `ui.addr` listener,
+modelled by the checked `ui[0]?` in `validate`) is reached only after `len(kvs) != 1 ⇒ error`; `p[1]` of an
+environment entry only after `len(p) != 2 ⇒ continue` (D20).  `cmdline[0]` has no guard inside `load`: its
+caller `parse` builds `cmdline` from `args[:1]` after `len(args) < 1 ⇒ panic("missing exec name")`, i.e. `Load`
+requires the program name — a stated precondition.  Weakening or removing a guard changes this list. -/
+theorem index_sites_guarded : indexGuards =
+    [("ParseFlags", "p[0]", "exit-if len(p) != 2"),
+     ("ParseFlags", "p[1]", "exit-if len(p) != 2"),
+     ("load", "cmdline[0]", "none"),
+     ("load", "kvs[0]", "exit-if len(kvs) != 1"),
+     ("parse", "args[i+1]", "exit-if i >= len(args)-1"),
+     ("parse", "args[i]", "loop-while i < len(args)"),
+     ("parse", "path[0]", "after-case path == \"\""),
+     ("parse", "path[0]", "after-case path == \"\""),
+     ("parseCertSource", "p[0]", "exit-if len(p) != 2"),
+     ("parseCertSource", "p[1]", "exit-if len(p) != 2")] := by decide
+
 end Fabio.Props.C15Facts
